@@ -1,14 +1,59 @@
 (** Correspondence cases for C07: either an interpreter program (the case type of corr/C05.v), or a full
     set of Engine.Execute arguments (model/ExecOpts.v) with what the implementation did on them: verdict,
-    number of AfterStep snapshots and the SHA-256 of their canonical serialisation. *)
+    number of AfterStep snapshots and the SHA-256 of their canonical serialisation; or a HISTORY: the calls made one
+    after the other on ONE Go engine (and one debugger object, option values passed again - c07_history.go), each with
+    what the implementation did on that engine at that point, compared with model/EngineHistory.v [run_history]. *)
 From Coq Require Import String List NArith ZArith.
 From Coq Require Import Strings.Byte.
-From GoBT Require Import lib.Bytes lib.Hex lib.Sha256 model.ScriptNum model.Interp model.ExecOpts corr.Corr corr.C05.
+From GoBT Require Import lib.Bytes lib.Hex lib.Sha256 model.ScriptNum model.Interp model.ExecOpts model.EngineHistory corr.Corr corr.C05.
 Import ListNotations.
+
+(** one call of a history.  [full]: a snapshot-recording debugger was attached (verdict, steps and trace hash are
+    compared); otherwise the verdict only.  [HSkip]: a call under a full transaction context that may reach a signature
+    operation - not followed by the signature-free model (C06's subject); it is a call of the history all the same. *)
+Inductive hcall :=
+| HSkip
+| HProg (full : bool) (k : C05.case)
+| HOpts (full : bool) (o : exec_opts) (ob : obs) (steps : N) (trace_sha : string).
 
 Inductive case :=
 | KProg (k : C05.case)
-| KOpts (o : exec_opts) (ob : obs) (steps : N) (trace_sha : string).
+| KOpts (o : exec_opts) (ob : obs) (steps : N) (trace_sha : string)
+| KHist (calls : list hcall).
+
+Definition agrees (full : bool) (r : verdict * list snapshot) (ob : obs) (steps : N) (sha : string) : bool :=
+  let '(v, tr) := r in
+  match v, ob with
+  | VOk, ObsOk | VErr, ObsErr | VPanic, ObsPanic =>
+      negb full || ((N.of_nat (length tr) =? steps)%N && String.eqb (hex_of (sha256 (ser_trace tr))) sha)
+  | _, _ => false
+  end.
+
+Definition input_of_case (k : C05.case) : exec_input :=
+  mkExecInput (k_unlock k) (k_lock k) (k_flags k) (k_has_tx k) (k_has_prev k) (k_tx_lock k) (k_tx_version k) (k_in_seq k).
+
+(** the model call of a history entry; a skipped call is a call too (the model engine goes through it) *)
+Definition call_of (h : hcall) : sigops * call :=
+  match h with
+  | HSkip => (no_sigops, CProg (mkExecInput [] [] 0 false false 0 0 0))
+  | HProg _ k => (no_sigops, CProg (input_of_case k))
+  | HOpts _ o _ _ _ => (no_sigops, COpts o)
+  end.
+
+Fixpoint agree_all (hs : list hcall) (rs : list (verdict * list snapshot)) : bool :=
+  match hs, rs with
+  | [], [] => true
+  | h :: hs', r :: rs' =>
+      match h with
+      | HSkip => true
+      | HProg full k => agrees full r (k_obs k) (k_steps k) (k_trace_sha k)
+      | HOpts full _ ob steps sha => agrees full r ob steps sha
+      end && agree_all hs' rs'
+  | _, _ => false
+  end.
+
+Definition check_history (hs : list hcall) : bool :=
+  agree_all hs (run_history new_engine (map call_of hs)).
 
 Definition check (k : case) : bool :=
   match k with
@@ -20,6 +65,7 @@ Definition check (k : case) : bool :=
           (N.of_nat (length tr) =? steps)%N && String.eqb (hex_of (sha256 (ser_trace tr))) sha
       | _, _ => false
       end
+  | KHist hs => check_history hs
   end.
 
 Definition mismatches := mismatches_with check.
